@@ -23,3 +23,5 @@ import McpModel.Wire.Props
 import McpModel.Gate.Props
 import McpModel.Resume.Props
 import McpModel.Resume.Witness
+import McpModel.Resume.Accept08
+import McpModel.Resume.Sound08
